@@ -331,8 +331,10 @@ func (c *Controller) resolveMatch(ls *linkState, hashBytes []byte, ms link.Mount
 		}
 	})
 
+	// All matching directives receive the same value: the stream has a single
+	// owner, whichever caller accepts the value first.
+	sms := link_solicit.NewSolicitMountedStream(ms)
 	for _, ss := range matches {
-		sms := link_solicit.NewSolicitMountedStream(ms)
 		if _, ok := ss.handler.AddValue(sms); ok {
 			ls.le.WithField("hash", hashHex).Debug("emitted SolicitMountedStream value")
 		}
